@@ -3,6 +3,7 @@
 # properties named in its props.txt against that worktree (VERIF_REPO), and writes seeded/SWEEP.txt.  /repo is not touched.
 cd "$(dirname "$0")/.." || exit 2   # location independent: works from a snapshot of /verif (vp run)
 W=/tmp/sweeprepo.$$; git -C /repo worktree add -q --detach $W HEAD || exit 2
+FROM=$SWEEP_FROM   # optional (environment): skip seeded changes whose directory name sorts before this string
 ONLY=$1   # optional: only seeded changes whose directory name contains this string (result in seeded/SWEEP.part.txt)
 final=seeded/SWEEP.txt; [ -n "$ONLY" ] && final=seeded/SWEEP.part.txt
 out=$final.new; : > $out
@@ -11,15 +12,16 @@ echo "# /repo at $(git -C /repo log --format=%h -1), /verif at $(git log --forma
 for d in seeded/*/; do
   n=$(basename $d); [ -f $d/patch.diff ] || continue
   case "$n" in *"$ONLY"*) ;; *) continue;; esac
+  if [ -n "$FROM" ] && [ "$(printf '%s\n%s\n' "$FROM" "$n" | LC_ALL=C sort | head -1)" != "$FROM" ]; then continue; fi
   props=$(cat $d/props.txt 2>/dev/null); [ -z "$props" ] && continue
   git -C $W apply $(realpath $d/patch.diff) 2>/dev/null || { echo "$n | - | PATCH DOES NOT APPLY" >> $out; continue; }
   for p in $(echo $props | tr , ' '); do
-    VERIF_REPO=$W VERIF_EVIDENCE_SUFFIX=.sweep ./check.sh $p quick > /tmp/sweep_$p.log 2>&1; rc=$?
-    v=$(grep -c "^VIOLATION" /tmp/sweep_$p.log)
-    first=$(grep -m1 -B1 "^VIOLATION" /tmp/sweep_$p.log | head -1 | cut -c1-170)
+    VERIF_REPO=$W VERIF_EVIDENCE_SUFFIX=.sweep ./check.sh $p quick > /tmp/sweep_$$_$p.log 2>&1; rc=$?
+    v=$(grep -c "^VIOLATION" /tmp/sweep_$$_$p.log)
+    first=$(grep -m1 -B1 "^VIOLATION" /tmp/sweep_$$_$p.log | head -1 | cut -c1-170)
     echo "$n | $p | exit=$rc | violations=$v | $first" >> $out
   done
   git -C $W checkout -- . ; git -C $W clean -fdq
 done
-git -C /repo worktree remove --force $W
+git -C /repo worktree remove --force $W; rm -f /tmp/sweep_$$_*.log
 echo DONE >> $out; mv $out $final
